@@ -118,10 +118,27 @@ def main():
                 if len(out['samples']) < 3:
                     out['samples'].append(jsonable(info.sample if info.sample is not None else params))
 
+    hang_memo = {}
+
+    def _run_family(params):
+        """fam.run, except that a case of a real-process family already judged 'hang' in this shard (three attempts) is not run
+        again here (Hypothesis replays its final failure, and the in-process confirmation would repeat it once more)"""
+        if fam.engine != 'real':
+            return fam.run(params)
+        h = dhash(params)
+        if h in hang_memo:
+            raise Violation(*hang_memo[h])
+        try:
+            return fam.run(params)
+        except Violation as v:
+            if v.clause == 'hang':
+                hang_memo[h] = (v.clause, v.detail, v.signature)
+            raise
+
     def run_one(params, counting=True):
         """returns None if ok/excluded, raises Violation if an unlisted violation"""
         try:
-            info = fam.run(params)
+            info = _run_family(params)
         except Inconclusive as inc:
             out['inconclusive'] += 1
             if len(out.setdefault('inconclusive_samples', [])) < 2:
@@ -140,6 +157,9 @@ def main():
             v.__traceback__ = None
             v.__context__ = None
             state['last_fail'] = (params, v)
+            if fam.engine == 'real' and v.clause == 'hang':
+                # a hang of real processes costs minutes per evaluation (three attempts with growing budgets): no shrinking
+                state['t_first_fail'] = float('-inf')
             raise v from None
         if counting:
             account(info, params)
@@ -150,7 +170,7 @@ def main():
         last = v
         for _ in range(max(1, fam.retries)):
             try:
-                fam.run(params)
+                _run_family(params)
             except Violation as v2:
                 if kf.match(known, spec['prop'], fam.name, v2, params) is None:
                     recurred += 1
